@@ -31,6 +31,53 @@ type Format interface {
 	// Candidates returns strings of length Size() designed to populate every
 	// realisable class (the caller buckets them with Analyse).
 	Candidates(r *rand.Rand, n int) [][]byte
+	// Alternates returns strings of OTHER lengths (mostly twice the size) that
+	// some serialisation format of the same group, or a lenient reader, could
+	// take for a point: uncompressed x||y forms of subgroup members, of points
+	// on the curve outside the subgroup and of off-curve pairs, concatenated
+	// and zero-padded encodings. What a decoder makes of them is judged on the
+	// value it accepts (re-encoding classified by Analyse).
+	Alternates(r *rand.Rand, n int) [][]byte
+}
+
+func cat(bs ...[]byte) []byte {
+	var out []byte
+	for _, b := range bs {
+		out = append(out, b...)
+	}
+	return out
+}
+
+// pickBy returns up to n size-length candidates of the format whose analysis satisfies want.
+func pickBy(f Format, r *rand.Rand, n int, want func(Analysis) bool) [][]byte {
+	var out [][]byte
+	for _, c := range f.Candidates(r, 2) {
+		if a := f.Analyse(c); a.Canonical() && want(a) {
+			out = append(out, c)
+			if len(out) == n {
+				break
+			}
+		}
+	}
+	return out
+}
+
+// concatAlternates builds member||member, nonmember||member, member||nonmember and zero-padded forms.
+func concatAlternates(f Format, r *rand.Rand, n int) [][]byte {
+	mem := pickBy(f, r, n, func(a Analysis) bool { return a.Mem == "sub" })
+	non := pickBy(f, r, n, func(a Analysis) bool { return a.Mem == "curve" || a.Mem == "off" })
+	var out [][]byte
+	for i := range mem {
+		out = append(out, cat(mem[i], mem[(i+1)%len(mem)]))
+		out = append(out, cat(mem[i], make([]byte, f.Size())), cat(make([]byte, f.Size()), mem[i]))
+		if len(non) > 0 {
+			out = append(out, cat(non[i%len(non)], mem[i]), cat(mem[i], non[i%len(non)]))
+		}
+	}
+	for i := range non {
+		out = append(out, cat(non[i], non[(i+1)%len(non)]), cat(make([]byte, f.Size()), non[i]), cat(non[i], make([]byte, f.Size())))
+	}
+	return out
 }
 
 func rangeOf(coeffs []*big.Int, p *big.Int, bits int) string {
@@ -289,6 +336,8 @@ func (f *WXY) Candidates(r *rand.Rand, n int) [][]byte {
 	return out
 }
 
+func (f *WXY) Alternates(r *rand.Rand, n int) [][]byte { return concatAlternates(f, r, n) }
+
 // ------------------------------------------------------------------ zcash compressed (BLS12-381)
 
 // ZC is the zcash compressed encoding: x big-endian (for Fp2: c1 || c0), the
@@ -476,6 +525,61 @@ func (f *ZC) Candidates(r *rand.Rand, n int) [][]byte {
 	return out
 }
 
+// Uncompressed returns x||y (for Fp2: c1||c0 per coordinate, or c0||c1 with c0first) with the given flag bits.
+func (f *ZC) Uncompressed(p WPoint, flags byte, c0first bool) []byte {
+	co := func(e Fe) []byte {
+		if f.C.F.Deg == 1 {
+			return beBytes(e[0], zcCoef)
+		}
+		if c0first {
+			return cat(beBytes(e[0], zcCoef), beBytes(e[1], zcCoef))
+		}
+		return cat(beBytes(e[1], zcCoef), beBytes(e[0], zcCoef))
+	}
+	out := cat(co(p.X), co(p.Y))
+	out[0] |= flags
+	return out
+}
+
+func (f *ZC) Alternates(r *rand.Rand, n int) [][]byte {
+	var pts []WPoint
+	for i := 0; i < n; i++ {
+		pts = append(pts, f.C.Mul(randBelow(r, f.C.Order), f.base)) // subgroup member
+	}
+	for len(pts) < 3*n { // on the curve, outside the subgroup: lift a random x (no cofactor clearing)
+		x := make(Fe, f.C.F.Deg)
+		for j := range x {
+			x[j] = randBelow(r, f.C.F.P)
+		}
+		if a, b, ok := f.C.Lift(x); ok && !f.C.InSubgroup(a) {
+			if r.Intn(2) == 0 {
+				a = b
+			}
+			pts = append(pts, a)
+		}
+	}
+	for i := 0; i < n; i++ { // off the curve
+		q := f.C.Mul(randBelow(r, f.C.Order), f.base)
+		q.Y = f.C.F.Add(q.Y, f.C.F.Int(1))
+		pts = append(pts, q)
+	}
+	var out [][]byte
+	for i, p := range pts {
+		out = append(out, f.Uncompressed(p, 0, false))
+		if f.C.F.Deg == 2 {
+			out = append(out, f.Uncompressed(p, 0, true))
+		}
+		if i%2 == 0 {
+			out = append(out, f.Uncompressed(p, 0x20, false), f.Uncompressed(p, 0x80, false))
+		}
+	}
+	inf := make([]byte, 2*f.Size())
+	out = append(out, append([]byte{}, inf...)) // raw (0,0)
+	inf[0] = 0x40
+	out = append(out, inf) // uncompressed infinity
+	return append(out, concatAlternates(f, r, n)...)
+}
+
 // ------------------------------------------------------------------ Ed25519
 
 type Ed struct{}
@@ -581,6 +685,18 @@ func (e Ed) Candidates(r *rand.Rand, n int) [][]byte {
 	// y = p-1 (x = 0 as well: the point of order 2)
 	pm1 := new(big.Int).Sub(EdP, big.NewInt(1))
 	out = append(out, EdRaw(pm1, false), EdRaw(pm1, true))
+	return out
+}
+
+func (e Ed) Alternates(r *rand.Rand, n int) [][]byte {
+	out := concatAlternates(e, r, n)
+	for i := 0; i < n; i++ { // both coordinates, little-endian: x||y and y||x, on and off the curve
+		p := EdMul(randBelow(r, EdQ), EdBase())
+		x, y := reverse(beBytes(p.X, 32)), reverse(beBytes(p.Y, 32))
+		out = append(out, cat(x, y), cat(y, x))
+		y2 := reverse(beBytes(new(big.Int).Mod(new(big.Int).Add(p.Y, big.NewInt(1)), EdP), 32))
+		out = append(out, cat(x, y2), cat(y2, x))
+	}
 	return out
 }
 
@@ -702,4 +818,20 @@ func (f *QR) Candidates(r *rand.Rand, n int) [][]byte {
 	}
 	out = append(out, beBytes(new(big.Int).Sub(maxv, one), sz))
 	return out
+}
+
+func (f *QR) Alternates(r *rand.Rand, n int) [][]byte {
+	sz := f.Size()
+	var out [][]byte
+	if sz == 1 {
+		return nil // the tiny group's short strings are enumerated exhaustively
+	}
+	for i := 0; i < 2*n; i++ { // big-endian integers with leading zeros, twice as wide
+		m := new(big.Int).Exp(f.G, randBelow(r, f.Q), f.P)
+		out = append(out, beBytes(m, 2*sz))
+		v := randBelow(r, f.P)
+		out = append(out, beBytes(v, 2*sz)) // mostly outside the subgroup when R > 2, half when R = 2
+	}
+	out = append(out, beBytes(new(big.Int), 2*sz), beBytes(big.NewInt(1), 2*sz), beBytes(f.P, 2*sz))
+	return append(out, concatAlternates(f, r, n)...)
 }
